@@ -204,7 +204,50 @@ def main_many(d):
         shutil.rmtree(tmp, ignore_errors=True)
 
 
+def main_results(d):
+    """one model stored with results r1, then with results r2 (0 = none), optionally another model in between; the
+    reader must get the latest committed results (real ModelfitResults objects told apart by their ofv)."""
+    import dataclasses
+    from pharmpy.tools import load_example_modelfit_results
+    base = load_example_modelfit_results('pheno')
+    m1 = set_name(load_example_model('pheno'), 'm1')
+    m2 = set_name(fix_parameters(m1, ['POP_CL']), 'm2')
+
+    def res(r):
+        return None if r == 0 else dataclasses.replace(base, ofv=100.0 + r)
+
+    def put(db, m, r):
+        with db.transaction(ModelEntry.create(m, modelfit_results=res(r))) as txn:
+            txn.store_model_entry()
+
+    def get(db, m):
+        with db.snapshot(m) as sn:
+            return sn.retrieve_modelfit_results()
+    tmp = tempfile.mkdtemp(prefix='c16res')
+    try:
+        put(ld.LocalModelDirectoryDatabase(tmp + '/db'), m1, d['r1'])
+        if d['other_between']:
+            put(ld.LocalModelDirectoryDatabase(tmp + '/db'), m2, 5)
+        put(ld.LocalModelDirectoryDatabase(tmp + '/db'), m1, d['r2'])
+        want = d['r2'] if d['r2'] != 0 else d['r1']
+        got = get(ld.LocalModelDirectoryDatabase(tmp + '/db'), m1)
+        if want == 0:
+            ok = got is None
+        else:
+            ok = got is not None and abs(got.ofv - (100.0 + want)) < 1e-9
+        if not ok:
+            return dict(ok=False, what=f'results retrieved: ofv {getattr(got, "ofv", None)}, latest committed: '
+                                       f'{None if want == 0 else 100.0 + want}')
+        if d['other_between']:
+            g2 = get(ld.LocalModelDirectoryDatabase(tmp + '/db'), m2)
+            if g2 is None or abs(g2.ofv - 105.0) > 1e-9:
+                return dict(ok=False, what='the results of the other model are not its own')
+        return dict(ok=True)
+    finally:
+        shutil.rmtree(tmp, ignore_errors=True)
+
+
 if __name__ == '__main__':
     _d = json.loads(sys.argv[1])
-    res = main_many(_d) if 'n' in _d else main(_d)
+    res = main_results(_d) if 'r1' in _d else (main_many(_d) if 'n' in _d else main(_d))
     print('REPLAY ' + json.dumps(res))
